@@ -55,6 +55,17 @@ impl AnySpec {
             AnySpec::Sys(s) => s.id = id,
         }
     }
+    /// moves an f64 threshold to the adjacent representable value (false: the family has integer thresholds)
+    pub fn nudge_threshold(&mut self) -> bool {
+        let up = |x: f64| f64::from_bits(x.to_bits() + 1);
+        match self {
+            AnySpec::Flow(s) if s.threshold > 0.0 => s.threshold = up(s.threshold),
+            AnySpec::Breaker(s) if s.threshold > 0.0 => s.threshold = up(s.threshold),
+            AnySpec::Sys(s) if s.threshold > 0.0 => s.threshold = up(s.threshold),
+            _ => return false,
+        }
+        true
+    }
     /// validity as decided by the family's validity check
     pub fn is_valid(&self) -> bool {
         match self {
